@@ -25,6 +25,7 @@ func init() {
 			"R4 the metadata stored on success is FromCER of the very CER that was parsed, and the success CEA's application loop adds an application AVP for every locally supported application on every iteration; " +
 			"R5 in CER.Parse ErrNoCommonSecurity is returned only on the edge Inband-Security-Id present ∧ ≠ 0 and the missing-origin errors only on the empty-field edges. " +
 			"Also decided: R3 both CEA builders draw the host addresses from the same source (settings first, else the connection); R4 no metadata is stored on any rejection path; R5 the acceptance skeleton: the accepting return of CER.Parse is dominated by the nil-error edges of Unmarshal, the sanity check and the application check, every rejection test is live (its failing edge reaches an error return and is not overridden), and the application scan visits every member of each list before it can accept. " +
+			"R2 also (contradiction rule): where an error type of the state-machine packages wraps another error (has Unwrap), the failure cause must not be selected by comparing the error value with the sentinels. " +
 			"NOT decided (not applicable to static analysis): the acceptance predicate over all multisets and orders of application AVPs (validateAll / handleGroup / chooseErr are value-level logic).",
 		Rules: map[string]string{
 			"R1": "rejection closes the connection; acceptance does not",
